@@ -193,7 +193,7 @@ func (ck *Check) qResult(ctx *Ctx, fn *ssa.Function, depth int) (*Formula, bool)
 			}
 		}
 		for _, e := range l.Exits {
-			if e[0] == l.Header {
+			if l.exhaustionExit(e[0]) {
 				continue
 			}
 			r, ok := e[1].Instrs[len(e[1].Instrs)-1].(*ssa.Return)
@@ -566,7 +566,7 @@ func indexSearchSummary(p *Prog, h *ssa.Function) *idxSum {
 		return nil
 	}
 	for _, e := range loop.Exits {
-		if e[0] == loop.Header {
+		if loop.exhaustionExit(e[0]) {
 			continue
 		}
 		r, ok := e[1].Instrs[len(e[1].Instrs)-1].(*ssa.Return)
